@@ -7,6 +7,7 @@
   Strings are code point lists (`bs "ascii literal"`).
 -/
 import RumaModel.Model.Html
+import RumaModel.Spec.HtmlGlob
 namespace Ruma.Spec.HtmlAllow
 open Ruma Ruma.Html
 
@@ -80,8 +81,9 @@ def valueAllowed (m : Mode) (el a value : Str) : Bool :=
   | none => true
   | some l => l.any (fun s => (s ++ [58]).isPrefixOf value)
 
-/-- `language-*`: the prefix and then anything. Patterns are globs (`*` any run of characters). -/
-def classAllowed (el cl : Str) : Bool := anyGlob (row classes el) cl
+/-- `language-*`: the prefix and then anything. Patterns are globs (`*` any run of characters;
+the relation `GlobCp` of `Spec/HtmlGlob.lean`, decided by `globCp`). -/
+def classAllowed (el cl : Str) : Bool := Spec.HtmlGlob.matchesAny (row classes el) cl
 
 def elemReplacement (el : Str) : Str := (mapGet deprecatedElements el).getD el
 
